@@ -86,6 +86,12 @@ func V(x interface{}) interface{} {
 			a = append(a, V(v))
 		}
 		return T{"arr", a}
+	case map[string]string:
+		m := O{}
+		for k, v := range vv {
+			m[k] = V(v)
+		}
+		return T{"obj", m}
 	}
 	return T{"other", fmt.Sprintf("%T", x)}
 }
@@ -277,6 +283,14 @@ func DeepCopy(x interface{}) interface{} {
 			a[i] = DeepCopy(v)
 		}
 		return a
+	case []string: // typed containers, as a Go host might build them, are copied as such
+		return append([]string{}, vv...)
+	case map[string]string:
+		m := make(map[string]string, len(vv))
+		for k, v := range vv {
+			m[k] = v
+		}
+		return m
 	}
 	return x
 }
